@@ -36,7 +36,13 @@ type Fault struct {
 }
 
 type Op struct {
-	Api string  `json:"api"` // run call new exported tryforof tryget try clear
+	Api string  `json:"api"` // run call new exported tryforof tryget try clear gsusp gclose achain
+	// scripted scenarios (specification-level expectation, see scen*):
+	K     int    `json:"k,omitempty"`     // scenario instance
+	Tk    string `json:"tk,omitempty"`    // gsusp: try kind around the for-of the generator is suspended in: catch finally both
+	Via   string `json:"via,omitempty"`   // gclose: return | throw
+	Fault string `json:"fault,omitempty"` // gclose/achain: what iterator.return() / the async continuation does: none throw intr rec
+	Surf  string `json:"surf,omitempty"`  // gclose/achain: run | call
 	B   []*Node `json:"b,omitempty"`
 	C   []*Node `json:"c,omitempty"` // tryforof: next items
 	N   int     `json:"n,omitempty"`
@@ -254,6 +260,38 @@ func genCase(r *vh.Rng) Case {
 		total += m * (countProbes(op.B) + countProbes(op.C))
 		c.Ops = append(c.Ops, op)
 	}
+	// scripted scenarios (need room on the call stack: only without a limit or with a comfortable one)
+	if (c.Lim < 0 || c.Lim >= 14) && r.Chance(22) {
+		faultKinds := []string{"none", "throw", "intr", "intr"}
+		if c.Lim >= 14 {
+			faultKinds = append(faultKinds, "rec", "rec")
+		}
+		trail := Op{Api: "run", B: []*Node{{T: "probe"}, {T: "then", B: []*Node{{T: "eff", N: r.Intn(50)}}}}}
+		if r.Bool() {
+			k := 1 + r.Intn(3)
+			susp := Op{Api: "gsusp", K: k, Tk: []string{"catch", "finally", "both"}[r.Intn(3)]}
+			cl := Op{Api: "gclose", K: k, Via: []string{"return", "throw"}[r.Intn(2)], Fault: faultKinds[r.Intn(len(faultKinds))], Surf: []string{"run", "call"}[r.Intn(2)]}
+			pos := r.Intn(len(c.Ops) + 1)
+			ops := append([]Op{}, c.Ops[:pos]...)
+			ops = append(ops, susp)
+			rest := c.Ops[pos:]
+			mid := r.Intn(len(rest) + 1)
+			ops = append(ops, rest[:mid]...)
+			ops = append(ops, cl, trail)
+			c.Ops = append(ops, rest[mid:]...)
+		} else {
+			ac := Op{Api: "achain", K: 1 + r.Intn(3), Fault: faultKinds[r.Intn(len(faultKinds))], Surf: []string{"run", "call"}[r.Intn(2)]}
+			// the job queue must be empty before it: only after calls that drain or drop it
+			L := 0
+			for L < len(c.Ops) && (c.Ops[L].Api == "run" || c.Ops[L].Api == "call" || c.Ops[L].Api == "exported" || c.Ops[L].Api == "clear") {
+				L++
+			}
+			pos := r.Intn(L + 1)
+			ops := append([]Op{}, c.Ops[:pos]...)
+			ops = append(ops, ac, trail)
+			c.Ops = append(ops, c.Ops[pos:]...)
+		}
+	}
 	nf := r.Pick(15, 60, 25)
 	for i := 0; i < nf; i++ {
 		k := 0
@@ -468,7 +506,7 @@ type env struct {
 	tags   map[string]bool
 }
 
-var idleKeys = []string{"sp", "sb", "args", "prgNil", "callStack", "tryStack", "iterStack", "refStack", "stashGlobal", "jobQueue", "interrupted"}
+var idleKeys = []string{"sp", "sb", "args", "prgNil", "callStack", "tryStack", "iterStack", "refStack", "stashGlobal", "jobQueue", "interrupted", "asyncNil"}
 
 func (e *env) vec(n int) []int {
 	m := goja.VerifIdle(e.rt)
@@ -576,7 +614,58 @@ func newEnv(c Case) (*env, string) {
 		}
 		return goja.Undefined()
 	})
+	rt.Set("gsfault", func(call goja.FunctionCall) goja.Value {
+		switch call.Argument(0).String() {
+		case "throw":
+			panic(rt.NewTypeError("scenario fault"))
+		case "intr":
+			rt.Interrupt("scenario fault")
+		case "rec":
+			if _, err := e.fnByName("rec")(goja.Undefined()); err != nil {
+				panic(err)
+			}
+		}
+		return goja.Undefined()
+	})
 	return e, ""
+}
+
+// scenClose: what ECMAScript prescribes (validated against node for the catchable rows) when a generator suspended at a
+// yield inside for-of inside try is closed by return(42) / throw(7) and iterator.return() logs and then does [fault]:
+// the iterator is closed first; a propagating exception runs catch (which rethrows) and finally; nothing runs after an
+// uncatchable error.
+func scenClose(via, tk, fault string, k int) (string, string) {
+	evs := []string{fmt.Sprintf("%d%%nat", 2000+k)}
+	switch fault {
+	case "intr":
+		return "(RError PIntr)", vh.CoqList(evs)
+	case "rec":
+		return "(RError PSO)", vh.CoqList(evs)
+	}
+	thrown := via == "throw" || fault == "throw"
+	if thrown && tk != "finally" {
+		evs = append(evs, fmt.Sprintf("%d%%nat", 2100+k))
+	}
+	if tk != "catch" {
+		evs = append(evs, fmt.Sprintf("%d%%nat", 2200+k))
+	}
+	if thrown {
+		return "(RError PCatch)", vh.CoqList(evs)
+	}
+	return "RNormal", vh.CoqList(evs)
+}
+
+// scenChain: aco() awaits aci(); aci's continuation (a promise job) does [fault]; aco then logs unless aci failed.
+func scenChain(fault string, k int) (string, string) {
+	switch fault {
+	case "intr":
+		return "(RError PIntr)", "[]"
+	case "rec":
+		return "(RError PSO)", "[]"
+	case "throw":
+		return "RNormal", "[]"
+	}
+	return "RNormal", vh.CoqList([]string{fmt.Sprintf("%d%%nat", 2300+k)})
 }
 
 type callObs struct {
@@ -681,7 +770,15 @@ func behaviour(rt *goja.Runtime) string {
 		} else {
 			parts = append(parts, v.String())
 		}
-		parts = append(parts, fmt.Sprint(goja.VerifIdle(rt)["callStack"], goja.VerifIdle(rt)["tryStack"]))
+		// an uncaught exception reported to Go: the frames of its trace
+		_, err = rt.RunString("(function later(){ throw new TypeError('later') })()")
+		var ex *goja.Exception
+		if errors.As(err, &ex) {
+			parts = append(parts, fmt.Sprint("trace", len(strings.Split(strings.TrimSpace(ex.String()), "\n"))))
+		} else {
+			parts = append(parts, fmt.Sprint("ERR", classify(err)))
+		}
+		parts = append(parts, fmt.Sprint(goja.VerifIdle(rt)["callStack"], goja.VerifIdle(rt)["tryStack"], goja.VerifIdle(rt)["asyncNil"]))
 	}()
 	return strings.Join(parts, ";")
 }
@@ -695,21 +792,24 @@ func runCase(c Case) vh.Record {
 		model string
 		run   func() (error, bool) // returns error value, hostpanic handled by caller
 		src   string
+		late  func(res int) string // optional: the model term depends on what happened (scenario ops)
 	}
 	var ops []compiled
+	suspended := map[int]string{}
+	suspOK := map[int]bool{}
 	for i := range c.Ops {
 		op := &c.Ops[i]
 		e.tags["api:"+op.Api] = true
 		switch op.Api {
 		case "run":
 			src := cp.js(op.B)
-			ops = append(ops, compiled{"ARun " + coqList(op.B), func() (error, bool) { _, err := rt.RunString(src); return err, true }, src})
+			ops = append(ops, compiled{"ARun " + coqList(op.B), func() (error, bool) { _, err := rt.RunString(src); return err, true }, src, nil})
 		case "call":
 			id := cp.fn(op.B)
 			ops = append(ops, compiled{"ACall " + coqList(op.B), func() (error, bool) {
 				_, err := e.fnByName(fmt.Sprintf("f_%d", id))(goja.Undefined())
 				return err, true
-			}, ""})
+			}, "", nil})
 		case "exported":
 			id := cp.fn(op.B)
 			ops = append(ops, compiled{"ACall " + coqList(op.B), func() (error, bool) {
@@ -719,13 +819,13 @@ func runCase(c Case) vh.Record {
 				}
 				_, err := f()
 				return err, true
-			}, ""})
+			}, "", nil})
 		case "new":
 			id := cp.fn(op.B)
 			ops = append(ops, compiled{"ATry [NDirect " + coqList(op.B) + "]", func() (error, bool) {
 				_, err := rt.New(rt.Get(fmt.Sprintf("f_%d", id)))
 				return err, false
-			}, ""})
+			}, "", nil})
 		case "tryget":
 			id := cp.fresh()
 			cp.decls = append(cp.decls, fmt.Sprintf("var G_%d = { get acc(){ %s return 1 } };", id, cp.js(op.B)))
@@ -735,7 +835,7 @@ func runCase(c Case) vh.Record {
 					return ex, false
 				}
 				return nil, false
-			}, ""})
+			}, "", nil})
 		case "tryforof":
 			id := cp.fresh()
 			cp.iter(id, op.C, op.N)
@@ -749,7 +849,7 @@ func runCase(c Case) vh.Record {
 					return ex, false
 				}
 				return nil, false
-			}, ""})
+			}, "", nil})
 		case "try":
 			cp.acts(op.B)
 			body := op.B
@@ -759,9 +859,71 @@ func runCase(c Case) vh.Record {
 					return ex, false
 				}
 				return nil, false
-			}, ""})
+			}, "", nil})
 		case "clear":
-			ops = append(ops, compiled{"AClear", func() (error, bool) { rt.ClearInterrupt(); return nil, false }, ""})
+			ops = append(ops, compiled{"AClear", func() (error, bool) { rt.ClearInterrupt(); return nil, false }, "", nil})
+		case "gsusp":
+			k := op.K
+			cat, fin := "", ""
+			if op.Tk != "finally" {
+				cat = fmt.Sprintf("catch (e) { LOG[LOG.length] = %d; throw e } ", 2100+k)
+			}
+			if op.Tk != "catch" {
+				fin = fmt.Sprintf("finally { LOG[LOG.length] = %d } ", 2200+k)
+			}
+			cp.decls = append(cp.decls, fmt.Sprintf(
+				"var GS_%d, GSF_%d = 'none'; var GSI_%d = {}; GSI_%d[Symbol.iterator] = function(){ var i = 0; return { next: function(){ return {value: i++, done: false} }, return: function(){ LOG[LOG.length] = %d; gsfault(GSF_%d); return {} } } }; function* gs_%d(){ try { for (var x of GSI_%d) { yield x } } %s%s} function gsr_%d(){ return GS_%d.return(42) } function gst_%d(){ return GS_%d.throw(7) }",
+				k, k, k, k, 2000+k, k, k, k, cat, fin, k, k, k, k))
+			suspended[k] = op.Tk
+			src := fmt.Sprintf("GS_%d = gs_%d(); GS_%d.next(); undefined", k, k, k)
+			kk := k
+			ops = append(ops, compiled{"AScen true false RNormal []", func() (error, bool) { _, err := rt.RunString(src); return err, false }, src,
+				func(res int) string { suspOK[kk] = res == 0; return "" }})
+		case "gclose":
+			k := op.K
+			tk, ok := suspended[k]
+			if !ok {
+				ops = append(ops, compiled{"AScen true false RNormal []", func() (error, bool) { _, err := rt.RunString("undefined"); return err, false }, "", nil})
+				break
+			}
+			delete(suspended, k)
+			res, evs := scenClose(op.Via, tk, op.Fault, k)
+			fn := "gsr"
+			if op.Via == "throw" {
+				fn = "gst"
+			}
+			fault, surf := op.Fault, op.Surf
+			runFlag := vh.CoqBool(op.Surf != "call")
+			ops = append(ops, compiled{fmt.Sprintf("AScen %s false %s %s", runFlag, res, evs), func() (error, bool) {
+				rt.Set(fmt.Sprintf("GSF_%d", k), fault)
+				if surf == "call" {
+					_, err := e.fnByName(fmt.Sprintf("%s_%d", fn, k))(goja.Undefined())
+					return err, false
+				}
+				_, err := rt.RunString(fmt.Sprintf("%s_%d(); undefined", fn, k))
+				return err, false
+			}, "", func(int) string {
+				if !suspOK[k] { // the suspending call itself failed (e.g. interrupted at once): GS_k is undefined -> TypeError
+					return fmt.Sprintf("AScen %s false (RError PCatch) []", runFlag)
+				}
+				return ""
+			}})
+		case "achain":
+			k := op.K
+			cp.decls = append(cp.decls, fmt.Sprintf(
+				"var ACF_%d = 'none'; async function aci_%d(){ await null; gsfault(ACF_%d); } async function aco_%d(){ await aci_%d(); LOG[LOG.length] = %d; } function acc_%d(){ aco_%d(); }",
+				k, k, k, k, k, 2300+k, k, k))
+			res, evs := scenChain(op.Fault, k)
+			fault, surf := op.Fault, op.Surf
+			ops = append(ops, compiled{fmt.Sprintf("AScen %s true %s %s", vh.CoqBool(op.Surf != "call"), res, evs), func() (error, bool) {
+				rt.Set(fmt.Sprintf("ACF_%d", k), fault)
+				if surf == "call" {
+					_, err := e.fnByName(fmt.Sprintf("acc_%d", k))(goja.Undefined())
+					return err, false
+				}
+				_, err := rt.RunString(fmt.Sprintf("aco_%d(); undefined", k))
+				return err, false
+			}, "", nil})
 		default:
 			panic("bad api " + op.Api)
 		}
@@ -810,7 +972,7 @@ func runCase(c Case) vh.Record {
 				e.snapshot()
 			}
 		}()
-		o := callObs{Res: res, Idle: e.vec(11), Trace: e.trace, Log: e.readLog()}
+		o := callObs{Res: res, Idle: e.vec(12), Trace: e.trace, Log: e.readLog()}
 		if o.Trace == nil {
 			o.Trace = [][]int{}
 		}
@@ -829,7 +991,13 @@ func runCase(c Case) vh.Record {
 		if idle[10] != 0 {
 			e.tags["interrupt-flag-left"] = true
 		}
-		coqOps = append(coqOps, op.model)
+		model := op.model
+		if op.late != nil {
+			if m := op.late(res); m != "" {
+				model = m
+			}
+		}
+		coqOps = append(coqOps, model)
 		var tr []string
 		for _, v := range o.Trace {
 			tr = append(tr, zlist(v))
